@@ -60,7 +60,7 @@ struct SimThread {
 enum Status { ST_OK = 0, ST_VIOLATION = 3, ST_LIMIT = 4, ST_SKIP = 5 };
 
 // fault kinds
-enum Fault { F_PREEMPT = 0, F_CAS_WEAK, F_SPUR_CV, F_SPUR_FUTEX, F_STALL, F_CLOCK_ADV, F_TIMEOUT_RACE, F_NKINDS };
+enum Fault { F_PREEMPT = 0, F_CAS_WEAK, F_SPUR_CV, F_SPUR_FUTEX, F_STALL, F_CLOCK_ADV, F_NKINDS };
 extern const char *const fault_names[F_NKINDS];
 
 struct Dev { u32 idx, val; };
